@@ -51,8 +51,9 @@ def corpus(tier):
 
     mask = lambda w: (1 << w) - 1  # noqa
     shape('single', lambda w, v: [('data', [2 * w, 0]), ('seg', 0, 2, 0, 2)])
-    shape('multi', lambda w, v: [('data', [0, 4 * w, 5, mask(w)]), ('seg', 0, 4, 0, 4), ('data', [1, 3 * w]), ('seg', 8, 2002, 4, 2),
-                                 ('data', [7, 7]), ('seg', 2 ** 14 - 2, 4, 6, 2)])
+    space = lambda w: (1 << w) // w  # noqa  (words in the 2^w-bit address space: every corpus image lies inside it)
+    shape('multi', lambda w, v: [('data', [0, 4 * w, 5, mask(w)]), ('seg', 0, 4, 0, 4), ('data', [1, 3 * w]), ('seg', 8, min(2002, space(w) // 2 - 8), 4, 2),
+                                 ('data', [7, 7]), ('seg', min(2 ** 14 - 2, space(w) - 4), 4, 6, 2)])
     shape('trailing', lambda w, v: [('data', [0, 2 * w, 9, 9, 9, 9]), ('seg', 0, 2, 0, 2)])
     shape('shared', lambda w, v: [('data', [0, 2 * w]), ('seg', 0, 2, 0, 2), ('seg', 4, 2, 0, 2)] if v in (0, 1) else None)
     shape('empty-data', lambda w, v: [('seg', 0, 2, 0, 0)])
@@ -61,9 +62,9 @@ def corpus(tier):
 
     # large incompressible payloads (several 64 KiB blocks once compressed): deterministic LCG words
     def big(w, v):
-        if (w, v) not in ((64, 3), (16, 3)):
+        if (w, v) not in ((64, 3), (32, 3)):
             return None
-        n = 20000 if w == 64 else 72000
+        n = 20000 if w == 64 else 36000
         x, words = 12345, []
         for _ in range(n):
             x = (x * 6364136223846793005 + 1442695040888963407) & ((1 << 64) - 1)
@@ -204,7 +205,10 @@ def work(task):
     orig = src.read_bytes()
     stats['files'] += 1
     outcome, detail, r, _ = load(src)
-    assert outcome == 'loaded', (name, outcome, detail)
+    if outcome != 'loaded':
+        # the undamaged file itself is refused (whether a writer-produced file must load is C06's question): nothing to derive faults from
+        stats['corpus_files_not_loadable'] = 1
+        return stats, sieve.result(), {'file': name, 'skipped': f'{outcome}: {str(detail)[:120]}'}
     original_image = R2.normalize(*R2.reader_image(r))
     fields, table_end = table_fields(orig)
     big = len(orig) > 4000
@@ -346,6 +350,8 @@ def main():
         if sample and len(samples) < 4:
             samples.append(sample)
     vac = [k for k in ('rejected', 'loaded') if not total.get(k)]
+    if total.get('corpus_files_not_loadable', 0) * 2 > total.get('files', 1):
+        vac.append('derived from most corpus files: the reader refuses them undamaged')
     if vac:
         print(f'CHECK-INTERNAL-ERROR vacuous exploration: nothing was {vac}', file=sys.stderr)
     cov = {
@@ -355,6 +361,7 @@ def main():
                 'and differs from the original file (non-trivial); the corpus files themselves come from the real Writer / assembler',
         'samples': samples or [{'note': 'none'}],
         'corpus_files': total.get('files', 0) // 3,
+        'corpus_files_not_loadable': total.get('corpus_files_not_loadable', 0) // 3,
         'outcomes': {k: total.get(k, 0) for k in ('rejected', 'loaded', 'raw-exception', 'hang', 'prefix_identical', 'loaded_consistent', 'lenient_load')},
         'bounds': {'prefixes': 'every byte offset of every small corpus file; header/table every byte + stride 257 (quick) of the assembled files',
                    'field_values': FIELD_VALUES + ['cur+-1', 'cur+2', 'cur^1', '2*cur', 'file length'], 'payload_values': ['0', '0xff', 'b^1', 'b^0x80'],
